@@ -26,33 +26,6 @@ pub mod mpsc {
     { unimplemented!() }
 }
 
-/// a topological order of the structure (petgraph `Topo`): every node exactly once, sources before targets
-pub open spec fn is_topo_order(g: &Dag<(), Edge, FnIdInner>, order: Seq<int>) -> bool {
-    &&& is_perm(order, g.n() as int)
-    &&& forall|e: int, i: int, j: int| #![trigger g.edges()[e], order[i], order[j]]
-            0 <= e < g.edges().len() && 0 <= i < order.len() && 0 <= j < order.len() && order[i] == g.edges()[e].src && order[j] == g.edges()[e].dst ==> i < j
-}
-
-#[verifier::external_body]
-pub struct Topo { _p: usize }
-
-impl Topo {
-    pub uninterp spec fn order(&self) -> Seq<int>;
-
-    /// petgraph::visit::Topo::new(g)
-    #[verifier::external_body]
-    pub fn new(g: &Dag<(), Edge, FnIdInner>) -> (r: Topo)
-        requires g.wf(),
-        ensures is_topo_order(g, r.order()),
-    { unimplemented!() }
-
-    /// `Walker::iter(self, g)`: yields the nodes in this topological order
-    #[verifier::external_body]
-    pub fn iter(self, g: &Dag<(), Edge, FnIdInner>) -> (r: VxIter<NodeIndex<FnIdInner>>)
-        ensures r.rest().len() == self.order().len(), forall|i: int| 0 <= i < self.order().len() ==> (#[trigger] r.rest()[i]).0.0 == self.order()[i],
-    { unimplemented!() }
-}
-
 // ASSUMED (std): `<[T]>::to_vec` is a fresh Vec with the same elements
 pub assume_specification<T: Clone> [<[T]>::to_vec] (s: &[T]) -> (r: Vec<T>)
     ensures r@ == s@;
